@@ -425,6 +425,34 @@ int streamMem(std::istream& in)
         afterClear = ledger::live - live0;
       }
     }
+    else if (t[1] == "iterzig" || t[1] == "citerzig")
+    {
+      // zig-zag around one position: `len` cycles of (a few next_prime, a few more prev_prime): every cycle switches
+      // direction twice, the consumption of primes grows with len while the position stays put
+      if (t[1] == "iterzig")
+      {
+        primesieve::iterator it(start);
+        for (uint64_t c = 0; c < len; c++)
+        {
+          for (int j = 0; j < 3; j++) { it.next_prime(); chk++; }
+          for (int j = 0; j < 3; j++) { it.prev_prime(); chk++; }
+        }
+        it.clear();
+        afterClear = ledger::live - live0;
+      }
+      else
+      {
+        primesieve_iterator it; primesieve_init(&it); primesieve_jump_to(&it, start, UINT64_MAX);
+        for (uint64_t c = 0; c < len; c++)
+        {
+          for (int j = 0; j < 3; j++) { primesieve_next_prime(&it); chk++; }
+          for (int j = 0; j < 3; j++) { primesieve_prev_prime(&it); chk++; }
+        }
+        primesieve_clear(&it);
+        afterClear = ledger::live - live0;
+        primesieve_free_iterator(&it);
+      }
+    }
     else if (t[1] == "citerfwd")
     {
       primesieve_iterator it; primesieve_init(&it); primesieve_jump_to(&it, start, UINT64_MAX);
